@@ -146,7 +146,8 @@ def _sel_cfgs(tier):
 def label_selection(ctx, n_points, cover, edges):
     """coordinates symbolic; label covers, edge sets and label subsets enumerated."""
     T, S = B.menpo_mods()
-    names = ['zeta', 'alpha', 'mid', 'beta'][:len(cover)]          # deliberately not in alphabetical order
+    # deliberately not in alphabetical order, and with names that contain one another
+    names = ['eyebrow', 'eye', 'brow', 'w'][:len(cover)]
     masks = OrderedDict((nm, np.array(m, dtype=bool)) for nm, m in zip(names, cover))
     E = {'none': np.zeros((0, 2), dtype=int), 'chain': np.array([[i, i + 1] for i in range(n_points - 1)]),
          'triangle': np.array([[0, 1], [1, 2], [0, 2]])}[edges]
@@ -182,6 +183,11 @@ def label_selection(ctx, n_points, cover, edges):
                 check_group('without_labels%s' % list(sub), lg.without_labels(list(sub)), rest)
             else:
                 ctx.check_true('without-all-labels-refused', ctx.raises(Exception, lg.without_labels, list(sub)))
+            if len(sub) == 1:
+                # a single label may be given as a plain string
+                check_group('with_labels(%r)' % sub[0], lg.with_labels(sub[0]), sub)
+                if rest:
+                    check_group('without_labels(%r)' % sub[0], lg.without_labels(sub[0]), rest)
     for nm in names:
         keep, idx, sub_adj = expect([nm])
         one = lg.get_label(nm)
